@@ -70,6 +70,11 @@ CHECKS = {
         "(and the renderer's line map outside eval / command substitution). Parts (b) input completeness and (c) parse-cache transparency are decided by their own specifications when built (evidence lists which parts ran).",
    note="Trusted: TLC, renderer, bash 5.2.15. `return` at top level is a different program under `source` (skipped there). One recorded finding: $LINENO inside eval'd text.",
    ref="DESIGN.md section 6 C15"),
+ "C19": dict(level=MC, thorough=True, tech="TLA+ Spans.tla predicate evaluated by TLC on every recorded highlight_command call (trace validation of a pure function); lines enumerated exhaustively over a metacharacter alphabet plus fragment concatenations, every cursor position",
+   text="Spans!SpansOK states the partition property (ordered, contiguous, non-overlapping, character-aligned, covering); every line of <= 3 (thorough 4) characters over an 18-symbol alphabet (quotes, $, parentheses, "
+        "backslash, newline, multi-byte, here-doc and redirection characters) plus thousands of fragment concatenations is highlighted in-process at every cursor position under catch_unwind, and TLC evaluates the predicate on every record.",
+   note="Trusted: TLC, the harness' recording of (len, boundaries, spans). The predicate is simple; the value is the enumerated input set and the uniform treatment (one statement of the property). A record with a gap must be rejected (self-test).",
+   ref="DESIGN.md section 6 C19"),
 }
 PENDING_REASON = "check not built yet in this round (planned, see DESIGN.md section 12); no claim is made"
 
